@@ -412,6 +412,8 @@ func (r *RefCount[T]) resolve(ctx context.Context, waitCh, doneCh chan struct{},
 	if waitCh != nil {
 		select {
 		case <-ctx.Done():
+			// the previous resolver must return before doneCh is closed
+			<-waitCh
 			return
 		case <-waitCh:
 		}
